@@ -3,5 +3,76 @@
 package decoder
 
 // Contracts for the verification harness under /verif (comment-only file).
+//
+// C12 totality: every function below is checked panic-free (index, slice
+// bounds, division, explicit panic) for every byte string.
 
 //@ func DecodeCRI
+
+//@ func DecodePostgres
+
+//@ func spaceSplit
+//@   pure
+//@   ensures isnil(result) || fresh(result)
+//@   ensures allrange(result, 0, len(b)) && increasing(result)
+//@   ensures forall k :: 0 <= k && k < len(result) ==> b[result[k]] == ' '
+//@   loop 1 invariant 0 <= i && (isnil(res) || fresh(res))
+//@   loop 1 invariant allrange(res, 0, i) && allrange(res, 0, len(b)) && increasing(res)
+//@   loop 1 invariant forall k :: 0 <= k && k < len(res) ==> b[res[k]] == ' '
+
+//@ func (*nginxErrorDecoder).Decode
+//@   loop 1 invariant 0 <= i
+//@   loop 1 invariant isnil(row.TID) || fresh(row.TID)
+//@   loop 1 invariant isnil(row.PID) || fresh(row.PID)
+//@   loop 1 invariant unchanged(data)
+//@   callee extractCustomFields(d)
+//@     pure
+
+//@ func (*nginxErrorDecoder).extractCustomFields
+
+//@ func syslogParsePriority
+//@   pure
+//@   ensures result2 == nil ==> 2 <= result1 && result1 <= 4 && result1 < len(data) && 0 <= result0 && result0 <= 191
+
+//@ func syslogFacilityFromPriority
+//@   pure
+
+//@ func syslogFacilityString
+//@   pure
+
+//@ func syslogSeverityString
+//@   pure
+
+//@ func syslogSeverityFromPriority
+//@   pure
+
+//@ func (*syslogRFC3164Decoder).Decode
+
+//@ func (*syslogRFC3164Decoder).validateTimestamp
+//@   pure
+//@   ensures result ==> len(ts) >= 16
+
+//@ func (*syslogRFC5424Decoder).Decode
+
+//@ func (*syslogRFC5424Decoder).validateTimestamp
+//@   pure
+//@   loop 1 invariant 2 <= i && i <= len(ts)
+
+//@ func (*syslogRFC5424Decoder).parseStructuredData
+
+//@ func (*syslogRFC5424Decoder).readUntilSpaceOrNilValue
+//@   pure
+//@   ensures result1 ==> (result0 == 0 && len(data) >= 2) || (0 < result0 && result0 < len(data))
+
+//@ func (*CSVDecoder).Decode
+
+//@ func atoi
+//@   pure
+//@   ensures result1 ==> result0 >= 0
+//@   loop 1 invariant x >= 0
+
+//@ func checkNumber
+//@   pure
+
+//@ func isDigit
+//@   pure
